@@ -178,7 +178,14 @@ def cmd_check(args):
                 json.dump({"engine": engine, "prop": eprop, "check": pid}, open(dst + ".meta.json", "w"))
             violations.append((what, dst, last[-1500:]))
         else:
-            notes.append("FLAKY-NOT-REPORTED %s (%d/%d reproductions)" % (path, okc, tries))
+            orig = path[:-5] + "_orig.json" if path.endswith(".json") and not path.endswith("_orig.json") else None
+            if orig and os.path.exists(orig):
+                # the shrunk case does not fail in a fresh process (shrinking runs inside the process that found the failure: state leaked by the library from
+                # one parse into the next can mislead it); the case as it was found is the reproducible unit then
+                notes.append("shrunk case %s did not reproduce in a fresh process (%d/%d); falling back to the case as found" % (os.path.basename(path), okc, tries))
+                confirm_and_record(engine, orig, what, eprop)
+            else:
+                notes.append("FLAKY-NOT-REPORTED %s (%d/%d reproductions)" % (path, okc, tries))
 
     # ---- replay tier: regressions (must pass) and known-finding witnesses -------------------------
     replayed = 0
